@@ -4,6 +4,7 @@ CONSTANTS
   LeaveFix = TRUE
   MaxResets = 1
   Faults = TRUE
+  StaleAcks = FALSE
   MaxProcs = 1
 VIEW view
 INVARIANT TypeOK
